@@ -422,3 +422,57 @@ func HarnessC08StackError() {
 	zzverif.Assert(e2 == nil && d.View().A == 4, "C08 after a stacking failure new configs are no longer installed")
 	zzverif.Reached("c08-stackerr-end")
 }
+
+// hvsrc is a watching source implemented with value receivers on a struct that holds a slice: a
+// perfectly good Source whose dynamic type is not comparable.
+type hvstate struct {
+	t  *Type
+	wa WatchArgs
+}
+
+type hvsrc struct {
+	tags []string
+	st   *hvstate
+}
+
+func (s hvsrc) Value(ctx context.Context, t *Type) (reflect.Value, error) {
+	return mkValue(t, hval{setA: true, a: 0}), nil
+}
+
+func (s hvsrc) Watch(ctx context.Context, t *Type, wa WatchArgs) error {
+	s.st.t, s.st.wa = t, wa
+	return nil
+}
+
+// HarnessC08UncomparableSource: reports, an error report and Done from a watching source of an
+// uncomparable dynamic type (next to an ordinary one) neither crash the monitor nor get lost.
+func HarnessC08UncomparableSource() {
+	verifyLog = nil
+	def := hcfg{}
+	st := &hvstate{}
+	vs := hvsrc{tags: []string{"x"}, st: st}
+	other := &hwsrc{hsrc{name: "s1", init: hval{setB: true, b: 0}}}
+	ctx, cancel := context.WithCancel(context.Background())
+	defer cancel()
+	var d *Dials[hcfg]
+	var err error
+	if zzverif.Choose("order", 2) == 0 {
+		d, err = Config(ctx, &def, vs, other)
+	} else {
+		d, err = Config(ctx, &def, other, vs)
+	}
+	if err != nil {
+		zzverif.Fail("C04 Config failed on a valid stack")
+		return
+	}
+	e := st.wa.BlockingReportNewValue(ctx, mkValue(st.t, hval{setA: true, a: 5}))
+	zzverif.Assert(e == nil && d.View().A == 5, "C08 a report from a watching source of an uncomparable type was not installed")
+	e = other.wa.BlockingReportNewValue(ctx, mkValue(other.t, hval{setB: true, b: 6}))
+	zzverif.Assert(e == nil && d.View().B == 6 && d.View().A == 5, "C05 the view differs from a fresh stack of the latest reported values")
+	zzverif.Assert(st.wa.ReportError(ctx, errInvalid) == nil, "C08 ReportError failed with a live context")
+	st.wa.Done(ctx)
+	zzverif.Quiesce()
+	e = other.wa.BlockingReportNewValue(ctx, mkValue(other.t, hval{setB: true, b: 7}))
+	zzverif.Assert(e == nil && d.View().B == 7, "C08 after one watcher finished the other's update was not installed")
+	zzverif.Reached("c08-uncomparable-end")
+}
